@@ -562,10 +562,12 @@ class Forcing(BaseForce):
         self.add_offset = dict()
         forcing_variables = ["u", "v", *self.extra_forcing]
         for key in forcing_variables:
-            if hasattr(nc.variables[key], "scale_factor"):
+            var = nc.variables[key]
+            if hasattr(var, "scale_factor") or hasattr(var, "add_offset"):
                 self.scaled[key] = True
-                self.scale_factor[key] = np.float32(nc.variables[key].scale_factor)
-                self.add_offset[key] = np.float32(nc.variables[key].add_offset)
+                # Either attribute may be left out
+                self.scale_factor[key] = np.float32(getattr(var, "scale_factor", 1.0))
+                self.add_offset[key] = np.float32(getattr(var, "add_offset", 0.0))
             else:
                 self.scaled[key] = False
 
@@ -595,13 +597,11 @@ class Forcing(BaseForce):
         U = self._nc.variables["u"][frame, :, self.grid.Ju, self.grid.Iu]
         V = self._nc.variables["v"][frame, :, self.grid.Jv, self.grid.Iv]
 
-        # Scale if needed
-        # Assume offset = 0 for velocity
+        # Scale if needed, each component with its own packing
         if self.scaled["u"]:
-            U = self.scale_factor["u"] * U
-            V = self.scale_factor["v"] * V
-            # U = self.add_offset['u'] + self.scale_factor['u']*U
-            # V = self.add_offset['v'] + self.scale_factor['v']*V
+            U = self.add_offset["u"] + self.scale_factor["u"] * U
+        if self.scaled["v"]:
+            V = self.add_offset["v"] + self.scale_factor["v"] * V
 
         # If necessary put U,V = zero on land and land boundaries
         # Stay as float32
